@@ -6,10 +6,12 @@ import (
 
 	"github.com/sboehler/knut/lib/amounts"
 	"github.com/sboehler/knut/lib/common/date"
+	"github.com/sboehler/knut/lib/common/dict"
 	"github.com/sboehler/knut/lib/common/predicate"
 	"github.com/sboehler/knut/lib/common/set"
 	"github.com/sboehler/knut/lib/journal"
 	"github.com/sboehler/knut/lib/model"
+	"github.com/sboehler/knut/lib/model/commodity"
 	"github.com/sboehler/knut/lib/model/registry"
 )
 
@@ -205,26 +207,26 @@ func Performance(dpv *journal.Performance) float64 {
 		v0, v1          float64
 		inflow, outflow = dpv.PortfolioInflow, dpv.PortfolioOutflow
 	)
-	for _, v := range dpv.V0 {
-		v0 += v
-	}
-	for _, v := range dpv.V1 {
-		v1 += v
-	}
-	for _, v := range dpv.Inflow {
-		inflow += v
-	}
-	for _, v := range dpv.Outflow {
-		outflow += v
-	}
+	// floating point sums depend on the order of the terms: always add in the same order
+	v0, v1 = sum(dpv.V0), sum(dpv.V1)
+	inflow += sum(dpv.Inflow)
+	outflow += sum(dpv.Outflow)
 	if v0 == v1 && inflow == 0 && outflow == 0 {
 		return 1
 	}
-	if v0+inflow == 0 {
+	if math.Abs(v0+inflow) < 1e-9 {
 		// no capital at work (e.g. a short position that is covered): there is no return to speak of
 		return 1
 	}
 	return (v1 - outflow) / (v0 + inflow)
+}
+
+func sum(m pcv) float64 {
+	var res float64
+	for _, c := range dict.SortedKeys(m, commodity.Compare) {
+		res += m[c]
+	}
+	return res
 }
 
 func Perf(j *journal.Builder, part date.Partition) *journal.Processor {
